@@ -480,9 +480,20 @@ def ssh_agrees(sshout, expected, ukh_set, names=()):
     for name in names:
         if name in sshout[7]:
             want = typed_for_ssh(name, e[7].get(name))
+            got = sshout[7][name]
             if name == 'CertificateFile' and want is None:
                 want = ['l']
-            ok = ok and sshout[7][name] == want
+            if name == 'RekeyLimit' and want is not None and \
+                    e[7][name][2] == '()':
+                # ssh keeps size and time as two first-value-wins fields: a
+                # line without a time leaves the time to a later line
+                want, got = want[:2], got[:2]
+            if name == 'ForwardAgent' and got and got[0] == 's' and \
+                    want and want[0] == 'b':
+                # ssh stores the flag and the socket path separately and -G
+                # prints the path whenever one was given (also after "no")
+                continue
+            ok = ok and got == want
     return ok
 
 
